@@ -149,8 +149,13 @@ impl FileDesc {
                     | oti::FECEncodingID::ReedSolomonGF28UnderSpecified => {
                         parity > 0 && k + parity <= 256
                     }
-                    // The Raptor encoder is not fully specified for 2 or 3 source symbols
-                    oti::FECEncodingID::Raptor => k != 2 && k != 3,
+                    // The Raptor encoder is not fully specified for 2 or 3 source symbols,
+                    // its FEC Payload ID numbers the encoding symbols of a block with 16 bits
+                    oti::FECEncodingID::Raptor => {
+                        k != 2 && k != 3 && k + parity <= u16::MAX as u64 + 1
+                    }
+                    // The RaptorQ FEC Payload ID numbers the encoding symbols of a block with 24 bits
+                    oti::FECEncodingID::RaptorQ => k + parity <= 1 << 24,
                     // The No-Code FEC Payload ID numbers the symbols of a block with 16 bits
                     oti::FECEncodingID::NoCode => k <= u16::MAX as u64 + 1,
                     _ => true,
